@@ -8,6 +8,7 @@ import (
 	"time"
 
 	"bufio"
+	"encoding/binary"
 	"io"
 	"io/ioutil"
 )
@@ -23,8 +24,11 @@ type Connection struct {
 	connection net.Conn
 	context    Context
 
-	// Used to buffer reads
-	readBuffer io.Reader
+	// Used to buffer encrypted bytes read from the connection
+	buffered *bufio.Reader
+
+	// Used to buffer decrypted bytes which were not read yet
+	readBuffer *bytes.Buffer
 }
 
 // NewConnection returns a hap connection.
@@ -69,30 +73,54 @@ func (con *Connection) EncryptedWrite(b []byte) (int, error) {
 
 // DecryptedRead reads and decrypts bytes from the connection.
 // The method returns the number of read bytes and an error when reading failed.
+//
+// The encrypted bytes are read through one buffered reader for the lifetime of the connection
+// and are decrypted frame by frame. A frame is only consumed when it arrived completely, so
+// a read timeout does not lose bytes.
 func (con *Connection) DecryptedRead(b []byte) (int, error) {
-	if con.readBuffer == nil {
-		buffered := bufio.NewReader(con.connection)
-		decrypted, err := con.getDecrypter().Decrypt(buffered)
+	for con.readBuffer == nil || con.readBuffer.Len() == 0 {
+		if con.buffered == nil {
+			con.buffered = bufio.NewReader(con.connection)
+		}
+
+		frame, err := con.peekFrame()
 		if err != nil {
 			if neterr, ok := err.(net.Error); ok && neterr.Timeout() {
 				// Ignore timeout error #77
 			} else {
-				log.Debug.Println("Decryption failed:", err)
-				err = con.connection.Close()
+				log.Debug.Println("Reading failed:", err)
+				con.connection.Close()
 			}
 			return 0, err
 		}
 
-		con.readBuffer = decrypted
+		decrypted, err := con.getDecrypter().Decrypt(bytes.NewReader(frame))
+		if err != nil {
+			log.Debug.Println("Decryption failed:", err)
+			con.connection.Close()
+			return 0, err
+		}
+		con.buffered.Discard(len(frame))
+
+		con.readBuffer = new(bytes.Buffer)
+		if _, err := con.readBuffer.ReadFrom(decrypted); err != nil {
+			return 0, err
+		}
 	}
 
-	n, err := con.readBuffer.Read(b)
+	return con.readBuffer.Read(b)
+}
 
-	if n < len(b) || err == io.EOF {
-		con.readBuffer = nil
+// peekFrame returns the bytes of the next frame (length, encrypted data and auth tag)
+// without consuming them. The method blocks until the frame is complete.
+func (con *Connection) peekFrame() ([]byte, error) {
+	header, err := con.buffered.Peek(2)
+	if err != nil {
+		return nil, err
 	}
 
-	return n, err
+	length := 2 + int(binary.LittleEndian.Uint16(header)) + 16
+	return con.buffered.Peek(length)
 }
 
 // Write writes bytes to the connection.
